@@ -22,6 +22,7 @@ RULE += ("  " + 'Also (round 6): the aborted-in-mid-transfer script belongs to t
 RULE += ("  " + 'Also: the failed upload command is simply given again and must work.')
 RULE += ("  " + 'Also (round 7): socket_timeout configured and downloads larger than every buffer, a fault at every back-end call (the reply must still be 451).')
 RULE += ("  " + 'Also (round 8): operating-system messages in another language with a line break in them, also on a latin-1 server.')
+RULE += ("  " + "Also (round 9): the real executor-based back end WITHOUT the spy around it, path_timeout configured - the k-th job it gives to its executor is slower than path_timeout or fails inside the thread (every k); what the back end's own decorators let through is what the server gets.")
 ASSUMPTIONS = [
     "faults are raised inside aioftp's own universal_exception wrapper by a spying subclass of the shipped back end",
     "a data connection must be closed by the server only when the transfer was started (1xx mark sent)",
@@ -59,8 +60,9 @@ def step_kind(st):
 async def execute(net, hyg, plan):
     prefixes = ["", "/by"] if plan.get("bystander") else [""]
     w = W.World(net, tree=corpus_tree(prefixes), users=corpus_users, backend=plan.get("backend", "memory"),
-                block_size=plan.get("block_size", 8192), **(plan.get("server_kwargs") or {}))
+                block_size=plan.get("block_size", 8192), raw=bool(plan.get("raw")), **(plan.get("server_kwargs") or {}))
     await w.start()
+    loop = asyncio.get_running_loop()
     try:
         script = corpus("")[plan["script"]]
         s = Session(net, 2121, name="victim")
@@ -81,8 +83,38 @@ async def execute(net, hyg, plan):
             except Exception:
                 return None
 
+        race = None
+        if plan.get("abor_race") is not None:
+            # the storage read of a download is held until the ABOR line has arrived at the server and `abor_race` further loop
+            # iterations have passed, then it fails: the failure falls before, into and after the moment ABOR is handled
+            race = {"ctl": 0, "go": asyncio.Event(), "held": False, "fire_n": None}
+
+            def on_event(idx, conn, direction, k_, n):
+                if (conn is getattr(s.peer, "conn", None) and direction == "c2s" and k_ == "DATA"
+                        and (s.current_step or [None])[0] == "xfer_abort"):
+                    race["ctl"] += 1
+                    if race["ctl"] >= 2:
+                        race["go"].set()
+            net.on_event = on_event
+
+            async def gate(spy, op, path, n):
+                if op != "read" or race["held"] or (s.current_step or [None])[0] != "xfer_abort" or w.ctl.session_of(spy) != victim_port():
+                    return
+                race["held"] = True
+                await race["go"].wait()
+                for _ in range(plan["abor_race"]):
+                    await asyncio.sleep(0)
+                race["fire_n"] = n
+            w.ctl.gate = gate
+
         def fail(op, path, n, sess):
             if sess is None or sess != victim_port():
+                return None
+            if race is not None:
+                if race["fire_n"] == n:
+                    race["fire_n"] = None
+                    fired.update(step=s.step_index, op=op, n=n)
+                    return mk()
                 return None
             count["n"] += 1
             hit = (k is not None and count["n"] == k) or (op_all is not None and op == op_all and fired.get("armed", True))
@@ -92,6 +124,19 @@ async def execute(net, hyg, plan):
                 return mk()
             return None
         w.ctl.fail = fail
+        if plan.get("raw"):
+            # the real back end without the spy: the k-th job it gives to the executor fails inside the thread, or takes longer
+            # than path_timeout - whatever the back end's own decorators make of that is what the server gets
+            def exec_hook(func):
+                if not fired.get("armed", True):
+                    return None
+                count["n"] += 1
+                if k is not None and count["n"] == k:
+                    name = getattr(getattr(func, "func", func), "__qualname__", "?").replace("AsyncPathIO.", "").replace(".<locals>", "")
+                    fired.update(step=s.step_index, op=f"{name}[{plan['raw']}]", n=count["n"])
+                    return ("delay", plan["slow"]) if plan["raw"] == "slow" else ("raise", mk())
+                return None
+            loop.exec_hook = exec_hook
         if plan.get("backend_delay"):
             rng = random.Random(plan.get("seed", 0))
             w.ctl.delay = lambda op, path, n: rng.choice(plan["backend_delay"])
@@ -118,6 +163,8 @@ async def execute(net, hyg, plan):
             mon["reply_451"] = 1
             w.ctl.fail = None
             fired["armed"] = False
+            if plan.get("raw"):
+                mon["raw_backend_fault"] = 1
             marks = [c for c in codes if c.startswith("1")]
             finals = [c for c in codes if not c.startswith("1")]
             where = f"step {st} failing {fired['op']} (call #{fired['n']}, {plan.get('exc', 'eio')})"
@@ -377,6 +424,18 @@ def gen_cases(tier, seed):
     # a server whose encoding cannot carry the operating system's message
     for name in ("mkd_rmd", "retr_pasv", "stor_pasv", "mlsd"):
         cases.append({"kind": "enum_k", "plan": {"script": name, "exc": "oddtext", "seed": seed, "server_kwargs": {"encoding": "latin-1"}}})
+    # the real executor-based back end WITHOUT the spy around it, path_timeout configured: the k-th job it hands to its executor
+    # takes longer than that, or fails inside the thread - what the back end's own decorators make of it is what the server gets
+    for name in (("mlsd", "stor_pasv", "retr_pasv", "mkd_rmd") if tier == "quick" else
+                 ("mlsd", "list", "stor_pasv", "retr_pasv", "mkd_rmd", "rename", "mlst", "appe", "walk", "dele", "retr_rest", "two_transfers")):
+        for raw in ("slow", "eio"):
+            cases.append({"kind": "enum_k", "stride": 2 if tier == "quick" else 1,
+                          "plan": {"script": name, "raw": raw, "exc": "eio", "slow": 2.0, "backend": "async", "seed": seed,
+                                   "server_kwargs": {"path_timeout": 0.5}}})
+    # a download whose storage read fails 0..14 loop iterations after its ABOR arrived: replies stay in the order of the commands
+    for d in range(0, 15):
+        for backend in ("memory", "pathio"):
+            cases.append({"kind": "single", "plan": {"script": "abor_mid", "exc": "eio", "abor_race": d, "backend": backend, "seed": seed}})
     # with a bystander on another prefix
     pairs = [("retr_pasv", "stor_pasv"), ("mlsd", "retr_pasv"), ("stor_pasv", "list")]
     if tier == "thorough":
